@@ -410,6 +410,9 @@ func runCheck(chk *Check, tier, replay string, keep bool, only string) int {
 					cmd.Env = append(cmd.Env, fmt.Sprintf("MC_BUDGET_S=%d", budget))
 				}
 				cmd.Env = append(cmd.Env, j.b.u.Env...)
+				if j.b.u.Race {
+					cmd.Env = append(cmd.Env, "GORACE=log_path="+filepath.Join(wd, "race")+" halt_on_error=0")
+				}
 				{
 					var ks []string
 					for _, k := range loadKnown().Findings {
